@@ -58,7 +58,11 @@ def _may_write_through(f, local, seen):
             for o in ops:
                 if isinstance(o, dict) and is_ref_itself(o):
                     # the reference is copied / moved into another place
-                    if pl["proj"] or _may_write_through(f, pl["local"], seen):
+                    if pl["proj"] or pl["local"] == 0 or _may_write_through(f, pl["local"], seen):
+                        return True   # (local 0 is the return place: the reference escapes to the caller)
+                elif isinstance(o, dict) and mentions_ref(o) and o["place"]["proj"] and o["place"]["proj"][0]["k"] != "deref":
+                    # a component of an aggregate held in `local` is moved out (`let (slot, v) = held;`): it may be the reference
+                    if pl["proj"] or pl["local"] == 0 or _may_write_through(f, pl["local"], seen):
                         return True
         t = b["term"]
         if t["k"] == "call":
